@@ -14,6 +14,8 @@ CLAIMED = {
             "M<=4 bins 1D, shapes 2x3/3x2 (quick); M<=5, 2x4, 2x2x3 (thorough)", "DESIGN.md 5/C10"),
     "C06": ("Bounded symbolic model checking of __mul__/__rmul__/__imul__/__truediv__/__itruediv__, normalize, Histogram2D.partial_normalize, HistogramCollection.normalize_bins/normalize_all and Statistics.__mul__ with symbolic contents, errors2, missed, statistics and a symbolic scalar (python and numpy, int and float, sign free): linearity of contents (c) and errors2 (c^2), commutation, (h*c)/c, chains, operand untouched, totals 1/100, row/column/share sums, statistics invariance, and the refusals (h*h, h/h, c/h, arrays, content-negating factors).",
             "1D M<=2 (quick) / M<=3, 2D 2x2 (quick) / 1x3, 2x1x2, 2x3 (thorough); QF_NRA", "DESIGN.md 5/C06"),
+    "C05": ("Bounded symbolic model checking of __add__/__radd__/__iadd__, has_same_bins, FixedWidthBinning.adapt/_adapt/_force_new_min_max, Statistics.__add__, builtin sum and HistogramCollection.sum: field-by-field commutativity and associativity on arbitrary histograms (symbolic contents, errors2, missed, statistics, mixed dtypes), operands untouched, adaptive union on the common grid with symbolic width/shift/offsets, refusals, h1(A)+h1(B) against the reference over A and B, and chunk invariance of adaptive sums (the reduction the dask helper runs).",
+            "M<=2 bins, 2-3 operands, adaptive bin counts 0..2, |A|<=2,|B|=1, N<=2 chunked values (quick); M<=3, counts 0..3, N<=3 (thorough). Real dask scheduling is outside (see C17)", "DESIGN.md 5/C05"),
 }
 
 REASONS_NOT_YET = "check not built yet (work in progress; see DESIGN.md section 8 build order)"
